@@ -875,7 +875,7 @@ impl Cw3Model {
                 .bal
                 .iter()
                 .filter(|(k, x)| r.bal.get(k) != Some(x))
-                .map(|(k, x)| format!("holder {} asset {}: real {} ledger {:?}", if k.0 == MS { "multisig".to_string() } else { cfg.actors[k.0 as usize].to_string() }, ["ucosm", "uother", "cw20"][k.1 as usize], x, r.bal.get(k)))
+                .map(|(k, x)| format!("holder {} asset {}: real {} ledger {:?}", if k.0 == MS { "multisig".to_string() } else { cfg.actors[k.0 as usize].to_string() }, ["ucosm", "uother", "cw20", "UCOSM"].get(k.1 as usize).copied().unwrap_or("?"), x, r.bal.get(k)))
                 .collect();
             v.push(Violation::new("C15.balances_match_deposit_ledger", diff.join("; ")));
         }
@@ -1482,6 +1482,12 @@ impl Model for Cw3Model {
                     }
                     r.props[(*id - 1) as usize].executed = true;
                     if cfg.props.c15 {
+                        if pr.returned > 0 && !matches!(cfg.deposit, Dep::None) {
+                            v.push(Violation::new(
+                                "C15.deposit_returned_at_most_once",
+                                format!("{a:?} accepted for a proposal whose deposit had already been returned ({} time(s)): executing it returns the deposit again", pr.returned),
+                            ));
+                        }
                         if let Dep::Native { amount, .. } | Dep::Cw20 { amount, .. } = cfg.deposit {
                             let asset = if matches!(cfg.deposit, Dep::Native { .. }) { 0 } else { 2 };
                             *r.bal.entry((MS, asset)).or_insert(0) = r.bal.get(&(MS, asset)).copied().unwrap_or(0).wrapping_sub(amount);
